@@ -337,6 +337,13 @@ def _b_int(it, x=0):
         try: return int(x)
         except (ValueError, TypeError) as e: raise PyExc(type(e), e.args)
     raise Outside('int()')
+def _b_float(it, x=0.0):
+    if isinstance(x, z3.ArithRef): return z3.ToReal(x) if x.is_int() else x
+    if isinstance(x, SymVal) and hasattr(x, 'sym_float'): return x.sym_float(it)
+    if is_plain(x):
+        try: return float(x)
+        except (ValueError, TypeError) as e: raise PyExc(type(e), e.args)
+    raise Outside('float()')
 def _b_str(it, x=''):
     if is_sym(x): return '<sym>'
     return str(x)
@@ -421,7 +428,7 @@ DEFAULT_BUILTINS = {
     len: _b_len, isinstance: _b_isinstance, type: _b_type, tuple: _b_tuple, list: _b_list, iter: _b_iter,
     reversed: _b_reversed, enumerate: _b_enumerate, zip: _b_zip, map: _b_map, filter: _b_filter,
     any: _b_any, all: _b_all, min: _minmax(True), max: _minmax(False), sum: _b_sum, bool: _b_bool, int: _b_int,
-    str: _b_str, repr: _b_repr, id: _b_id, hash: _b_hash, getattr: _b_getattr, hasattr: _b_hasattr, setattr: _b_setattr,
+    str: _b_str, float: _b_float, repr: _b_repr, id: _b_id, hash: _b_hash, getattr: _b_getattr, hasattr: _b_hasattr, setattr: _b_setattr,
     callable: _b_callable, sorted: _b_sorted, set: _b_set, frozenset: _b_frozenset, dict: _b_dict, range: _b_range,
     abs: _b_abs, next: _b_next, functools.reduce: _b_reduce, itertools.starmap: _b_starmap,
     itertools.chain: _b_chain, itertools.chain.from_iterable: _b_chain_from, itertools.product: _b_product,
